@@ -79,7 +79,8 @@ func shareable(method string, headers [][2]string) (v verdict, L int64, canonica
 			}
 			d := dir{name: p}
 			if i := strings.IndexByte(p, '='); i >= 0 {
-				d.name, d.val, d.hasVal = strings.TrimSpace(p[:i]), strings.TrimSpace(p[i+1:]), true
+				// the value is taken literally: "s-maxage= 5" is a malformed number, not 5
+				d.name, d.val, d.hasVal = strings.TrimSpace(p[:i]), p[i+1:], true
 			}
 			if d.name != strings.ToLower(d.name) || p != part && strings.TrimSpace(part) != part {
 				if d.name != strings.ToLower(d.name) {
